@@ -288,10 +288,18 @@ impl Prop for C13 {
         } else {
             offset
         };
-        let buffered = match if kernel_sweep { 0 } else { rng.below(6) } {
+        // under Miri the memory oracle only speaks when a raw load crosses the end of the buffered
+        // data (which the preparation below makes the end of the heap block): aim there
+        let buffered = match if kernel_sweep {
+            0
+        } else if cfg!(miri) && rng.chance(3, 5) {
+            2
+        } else {
+            rng.below(6)
+        } {
             0 => data.len(),
             1 => 0,
-            2 => (offset + *rng.pick(&[6usize, 7, 8, 9, 15, 16, 17])).min(data.len()),
+            2 => (offset + *rng.pick(&[6usize, 7, 8, 8, 9, 9, 15, 16, 17])).min(data.len()),
             _ => rng.below(data.len() + 1),
         };
         let interrupts = rng.weighted(&[6, 2, 1]) as u8;
